@@ -8,3 +8,4 @@ CONSTANTS
  NoExclusion = FALSE
  NoLastRule = FALSE
  SampleMod = 1
+ SamplePhase = 0
